@@ -6,6 +6,7 @@ import WB.Lemmas.C06Sum
 import WB.Lemmas.C06Cell
 import WB.Lemmas.C06Tetra
 import WB.Lemmas.C06Orbit
+import WB.Lemmas.C06Calls
 import Mathlib.Tactic.IntervalCases
 
 namespace WB.C06
@@ -37,6 +38,40 @@ theorem getKList_nosym (syms : List Sym) (div : Idx) :
   simp only [Bool.false_eq_true, ↓reduceIte, List.filterMap_map]
   rw [← List.filterMap_eq_map]
   rfl
+
+/-- the group 4/m (four rotations about z, each also combined with inversion) -/
+def exampleSyms : List Sym :=
+  [⟨1, 0, 0, 0, 1, 0, 0, 0, 1, false, false⟩, ⟨0, 1, 0, -1, 0, 0, 0, 0, 1, false, false⟩,
+   ⟨-1, 0, 0, 0, -1, 0, 0, 0, 1, false, false⟩, ⟨0, -1, 0, 1, 0, 0, 0, 0, 1, false, false⟩,
+   ⟨1, 0, 0, 0, 1, 0, 0, 0, 1, true, false⟩, ⟨0, 1, 0, -1, 0, 0, 0, 0, 1, true, false⟩,
+   ⟨-1, 0, 0, 0, -1, 0, 0, 0, 1, true, false⟩, ⟨0, -1, 0, 1, 0, 0, 0, 0, 1, true, false⟩]
+
+
+/-! ## T1' — call histories on ONE grid object: the answer to `get_K_list(use_symmetry)` is a function of
+    (grid, group, use_symmetry) only.  For every sequence of calls the object is unchanged and call number `i` returns
+    `getKList syms div calls[i]`: weights ≥ 0 with sum 1, and all grid points with weight 1/N when `use_symmetry = False`,
+    irrespective of what was asked before (a cache that remembers the first call's reduction violates this). -/
+
+theorem getKList_call_history (g : GridObj) (calls : List Bool)
+    (h1 : 0 < g.div.1) (h2 : 0 < g.div.2.1) (h3 : 0 < g.div.2.2) :
+    (gridCalls g calls).1 = g ∧
+    (gridCalls g calls).2 = calls.map (getKList g.syms g.div) ∧
+    (∀ l ∈ (gridCalls g calls).2, totalW l = 1 ∧ ∀ k ∈ l, 0 ≤ k.factor) ∧
+    (∀ i : Nat, calls[i]? = some false → (gridCalls g calls).2[i]? = some
+      ((flatOrder g.div).map fun p =>
+        ({ K := gridK g.div p, dK := gridDK g.div,
+           factor := 1 / ((g.div.1 * g.div.2.1 * g.div.2.2 : Nat) : Rat), level := 0 } : KPoint))) := by
+  obtain ⟨a, b⟩ := gridCalls_spec g calls
+  refine ⟨a, b, ?_, ?_⟩
+  · intro l hl
+    rw [b] at hl
+    obtain ⟨us, _, rfl⟩ := List.mem_map.mp hl
+    exact getKList_total g.syms g.div us h1 h2 h3
+  · intro i hi
+    rw [b, List.getElem?_map, hi, Option.map_some, getKList_nosym]
+
+/-- symmetric call, then the full list, then the symmetric one again on the same object -/
+example : (gridCalls ⟨exampleSyms, (2, 2, 2)⟩ [true, false, true]).2.map List.length = [6, 8, 6] := by decide +kernel
 
 /-! ## T2 — orbit cover.  Hypotheses (`OrbitHyp`, the "group hypotheses" at the level where the loop uses them):
     on the grid, `q ∈ star(p)` is an equivalence relation that stays on the grid, and `star(p)` lists every point of
@@ -304,13 +339,6 @@ theorem five_tetra_disjoint (p : V3) (i j : Nat) (hi : i < 5) (hj : j < 5) (hij 
   · exact key j i hj hi hlt h2 h1
 
 /-! ## non-vacuity: concrete instances -/
-
-/-- the group 4/m (four rotations about z, each also combined with inversion) -/
-def exampleSyms : List Sym :=
-  [⟨1, 0, 0, 0, 1, 0, 0, 0, 1, false, false⟩, ⟨0, 1, 0, -1, 0, 0, 0, 0, 1, false, false⟩,
-   ⟨-1, 0, 0, 0, -1, 0, 0, 0, 1, false, false⟩, ⟨0, -1, 0, 1, 0, 0, 0, 0, 1, false, false⟩,
-   ⟨1, 0, 0, 0, 1, 0, 0, 0, 1, true, false⟩, ⟨0, 1, 0, -1, 0, 0, 0, 0, 1, true, false⟩,
-   ⟨-1, 0, 0, 0, -1, 0, 0, 0, 1, true, false⟩, ⟨0, -1, 0, 1, 0, 0, 0, 0, 1, true, false⟩]
 
 example : OrbitHyp (2, 2, 2) (starIdx exampleSyms (2, 2, 2)) := orbitCheck_sound _ _ (by decide +kernel)
 
